@@ -16,7 +16,7 @@ SEQ = {
     "C02": (["C02."], ["core", "randsched", "eom", "fine", "retarget", "oddmin"]),
     "C03": (["C03."], ["core", "randsched", "eom", "eomdrift", "fine", "phasejump", "localconf", "oddmin"]),
     "C18": (["C18."], ["switch", "rel"]),
-    "C04": (["C04."], ["rel"]),
+    "C04": (["C04."], ["rel", "relids"]),
     "C05": (["C05."], ["ham"]),
     "C06": (["C06."], ["render"]),
     "C07": (["C07."], ["phases", "core", "randsched", "eom", "eomdrift", "phasejump", "typestate"]),
